@@ -125,10 +125,10 @@ func InstallPrimeSourceByParty(mux *tape.Mux, base int) (uninstall func()) {
 
 // Families of identifiers. "rawbytes" and "nearq" contain identifiers that are not valid UTF-8 (the doc
 // comment of party.ID describes identifiers as 32-byte slices); the others are valid UTF-8.
-var Families = []string{"letters", "prefix", "concat", "near1", "nonascii", "long", "mixed", "rawbytes", "nearq"}
+var Families = []string{"letters", "prefix", "concat", "near1", "nonascii", "long", "mixed", "padding", "rawbytes", "nearq"}
 
 // UTF8Families are the families that survive the library's CBOR text-string encoding of identifiers.
-var UTF8Families = []string{"letters", "prefix", "concat", "near1", "nonascii", "long", "mixed"}
+var UTF8Families = []string{"letters", "prefix", "concat", "near1", "nonascii", "long", "mixed", "padding"}
 
 func famPool(f string) []party.ID {
 	switch f {
